@@ -361,6 +361,14 @@ def stall_pass(run, cfgs, refs):
             keys = [k for v in per.values() for k in (v[:2] + v[-3:])]
             keys = [list(x) for x in sorted({tuple(k) for k in keys})]
         items += [(ci, cap, k) for k in keys]
+        peeks = [k for k in dry['keys'] if k[1] == 'after-peek']
+        if peeks:           # the caller polls a queue's counter instead of joining: hold a worker at its last hand-over AND the caller between its reads
+            for role in ('compressor', 'writer'):
+                gets = [k for k in dry['keys'] if k[0] == role and k[1] == 'after-get']
+                if gets:
+                    items.append((ci, cap, [gets[-1], [peeks[0][0], 'after-peek', '*']]))
+        if cap == 16:       # any thread other than the compressor and the writer starts late (nothing to delay on the unchanged tree)
+            items.append((ci, cap, ['helper', 'start', 0]))
     for (ci, cap, target), r in zip(items, par.pmap(stall_run, items, chunksize=2)):
         case = {'config': cfgs[ci][0], 'cap': cap, 'schedule': {'kind': 'stall', 'spec': target}}
         run.case(case)
